@@ -25,6 +25,8 @@ Definition code_fixed_N1 := false.
 Definition code_fixed_N2 := false.
 (* network/local.go: send / close under back-pressure (C09-N3) *)
 Definition code_fixed_C09N3 := true.
+(* network/tcp.go receiveRawProd arms the read deadline before the header read (the tree does) *)
+Definition code_arms_header := true.
 
 (* ---- operations of the harness ------------------------------------------- *)
 
@@ -473,6 +475,8 @@ Inductive case :=
          (obs_errs : nat) (obs_deliv : list nat)
 | CConfig (first_failed : bool) (obs_victim_msg obs_victim_cfg obs_control_cfg : bool)
 | CCluster (canaries canaries_done : nat) (sends_returned survivors_alive handlers_told table_clean after_restart_ok : bool)
+| CMute (fresh : bool) (nhand : nat) (obs_calls : nat) (obs_other_peer_calls : nat) (obs_removed obs_send_after_fails : bool)
+| CMuteIdent (obs_gave_up : bool)
 | CLocalFlood (k : nat) (closed_reached stop_returned sends_returned post_returned canary_ok : bool)
 | CTreeReq (request_unanswered : bool) (canaries canaries_done : nat) (sends_returned survivors_alive after_restart_ok : bool).
 
@@ -531,6 +535,10 @@ Definition agree (c : case) : bool :=
       Bool.eqb vcfg (carries_config code_fixed_N1 (if first_failed then [RErr] else []))
   | CCluster canaries done returned alive told tclean after =>
       (done =? canaries) && returned && alive && told && tclean && after
+  | CMute fresh nhand calls other removed send_fails =>
+      let d := mute_detected code_arms_header fresh in
+      (calls =? (if d then nhand else 0)) && (other =? 0) && Bool.eqb removed d && Bool.eqb send_fails d
+  | CMuteIdent gave_up => Bool.eqb gave_up (mute_detected code_arms_header true)
   | CLocalFlood k closed_r stop_r sends_r post_r canary_r =>
       let '(c, s, p, m) := flood_outcome code_fixed_C09N3 200 k in
       Bool.eqb c closed_r && Bool.eqb c stop_r && Bool.eqb s sends_r && Bool.eqb p post_r && Bool.eqb m canary_r
@@ -729,6 +737,13 @@ Definition check (c : case) : list nat :=
       clause 4 vmsg
   | CCluster canaries done returned alive told tclean after =>
       clause 5 ((done =? canaries) && returned && alive) ++ clause 3 told ++ clause 2 tclean ++ clause 4 after
+  | CMute fresh nhand calls other removed send_fails =>
+      (* a silently dead peer: within the configured time-outs every handler is told that peer (and no
+         other), the connection leaves the table, and a Send after that reports that nothing listens *)
+      clause 3 ((nhand <=? calls) && (other =? 0)) ++ clause 2 removed ++ clause 1 send_fails
+  | CMuteIdent gave_up =>
+      (* a peer that connects and dies before its identity arrives must not pin the accept callback *)
+      clause 5 gave_up
   | CLocalFlood k closed_r stop_r sends_r post_r canary_r =>
       (* the shutdown of the peer must get through, every Send must return, the survivor must go on *)
       clause 5 (closed_r && stop_r && sends_r && post_r && canary_r)
